@@ -9,6 +9,10 @@
 From Coq Require Import List NArith Arith.
 From NV Require Import Sinks.Sink Sinks.SinkProofs Sinks.LayerProofs Sinks.BgzfProofs.
 From NV Require Import Io.Sched Sinks.Mt Sinks.MtProofs Sinks.Format Sinks.FormatProofs.
+From NV Require Import Sinks.MtApp Sinks.MtAppProofs.
+From NV Require Import Base.LE Index.Layout Index.LayoutProofs Sinks.IndexCalls Sinks.IndexCallsProofs.
+From NV Require Import Sinks.AsyncSink Sinks.AsyncSinkProofs.
+Close Scope N_scope.
 Import ListNotations.
 
 (* ----------------------------------------------------------------------------------------- *)
@@ -205,6 +209,108 @@ Proof. exact mt_model_fifo_total. Qed.
 Print Assumptions c14_mt_model_fifo_total.
 
 (* ----------------------------------------------------------------------------------------- *)
+(* WHICH call of the multithreaded writer reports the failure.  NV.Sinks.MtApp adds the application
+   thread: its program is the list of its synchronisation events (send() calls inside write_all /
+   flush / finish, the return of each call, the join of finish()), a joint schedule [sched] is ANY
+   interleaving of its steps (JApp) with the pipeline's internal steps (JPipe Start / Complete t /
+   Take / Emit); a send() blocks while the bounded channel is full and fails -- returning the writer
+   thread's io::Result -- iff the writer thread has exited; the caller stops at the first Err.
+   [m_rs] = the results of the API calls in call order, [m_done] = finish() has returned or a call
+   has returned Err. *)
+
+(* the send() calls of the application thread are the blocks of NV.Sinks.Mt, and the pipeline
+   component of every joint run is a run of that model: all c14_mt_* theorems apply to it *)
+Theorem c14_mt_app_sends_are_blocks :
+  forall maxbuf, 0 < maxbuf -> forall ops,
+    count_send (mta_prog maxbuf ops bw_init) = mt_nblocks maxbuf ops.
+Proof. exact mta_prog_sends. Qed.
+Print Assumptions c14_mt_app_sends_are_blocks.
+
+Theorem c14_mt_app_pipeline_is_schedule :
+  forall P maxbuf frames ops sched s,
+    exists sched', m_pipe (mta_run P maxbuf frames ops sched s) = mt_state P maxbuf frames ops sched' s.
+Proof. exact mta_pipe_is_mt_state. Qed.
+Print Assumptions c14_mt_app_pipeline_is_schedule.
+
+(* under EVERY joint schedule, when the application thread is done: every call but the last
+   returned Ok, the last one returned the writer thread's result r, (r, sink) are those of the
+   sequential `?`-chain, and r = Ok only for finish() itself (j = number of ops) *)
+Theorem c14_mt_app_attribution :
+  forall P maxbuf frames ops sched s,
+    let x := mta_run P maxbuf frames ops sched s in
+    m_done x = true ->
+    exists j r s',
+      run_calls (mt_calls maxbuf frames ops) s = (r, s') /\
+      mt_result (m_pipe x) = (r, s') /\
+      m_rs x = repeat Ok j ++ [r] /\ j <= length ops /\ (r = Ok -> j = length ops).
+Proof. exact mta_attribution. Qed.
+Print Assumptions c14_mt_app_attribution.
+
+(* never lost: a consumed Fail e is the result of exactly one API call -- the last one made -- and
+   the sink holds a prefix of the fault-free file *)
+Theorem c14_mt_app_failure_reported :
+  forall P maxbuf frames ops sched s c e,
+    let x := mta_run P maxbuf frames ops sched s in
+    m_done x = true ->
+    sscript s = c ++ sscript (snd (mt_result (m_pipe x))) -> In (Fail e) c -> e <> e_interrupted ->
+    (exists j, j <= length ops /\ m_rs x = repeat Ok j ++ [Err e]) /\
+    exists p, sbytes (snd (mt_result (m_pipe x))) = sbytes s ++ p /\ prefix p (mt_out maxbuf frames ops).
+Proof. exact mta_failure_reported. Qed.
+Print Assumptions c14_mt_app_failure_reported.
+
+(* no call returns Ok with bytes dropped: if every call made returned Ok then all of them were
+   made (finish() included) and the sink holds the complete file *)
+Theorem c14_mt_app_all_ok_complete :
+  forall P maxbuf frames ops sched s,
+    let x := mta_run P maxbuf frames ops sched s in
+    m_done x = true -> Forall (fun r => r = Ok) (m_rs x) ->
+    m_rs x = repeat Ok (S (length ops)) /\
+    sbytes (snd (mt_result (m_pipe x))) = sbytes s ++ mt_out maxbuf frames ops.
+Proof. exact mta_all_ok_complete. Qed.
+Print Assumptions c14_mt_app_all_ok_complete.
+
+Theorem c14_mt_app_short_write_invariant :
+  forall P maxbuf frames ops sched s,
+    let x := mta_run P maxbuf frames ops sched s in
+    m_done x = true -> no_fail (sscript s) ->
+    m_rs x = repeat Ok (S (length ops)) /\
+    sbytes (snd (mt_result (m_pipe x))) = sbytes s ++ mt_out maxbuf frames ops.
+Proof. exact mta_short_write_invariant. Qed.
+Print Assumptions c14_mt_app_short_write_invariant.
+
+(* the reporting call is the FIRST one that observes the writer thread's result: once the thread
+   has stopped, a returning call returns Ok without touching the pipeline, and the next send() or
+   join is not blocked and returns the thread's error *)
+Theorem c14_mt_app_first_observer :
+  forall P frames x ev t,
+    m_done x = false -> m_prog x = ev :: t -> mtc_stopped (cs (m_pipe x)) = true ->
+    let x' := mta_step P frames x JApp in
+    match ev with
+    | ARet => m_pipe x' = m_pipe x /\ m_rs x' = m_rs x ++ [Ok] /\ m_done x' = false
+    | _ => m_done x' = true /\ m_pipe x' = m_pipe x /\
+           exists e, mt_res (cs (m_pipe x)) = e /\ e <> Ok /\ m_rs x' = m_rs x ++ [e]
+    end.
+Proof. exact mta_first_observer. Qed.
+Print Assumptions c14_mt_app_first_observer.
+
+(* the strategies executed by the correspondence check (one synchronisation plan per case) are
+   joint schedules, and for every plan the life ends: no deadlock between application thread,
+   bounded channel, pool and writer thread *)
+Theorem c14_mt_app_model_is_run :
+  forall P maxbuf frames pol ops s rs s',
+    mta_model P maxbuf frames pol ops s = Some (rs, s') ->
+    exists sched, let x := mta_run P maxbuf frames ops sched s in
+      m_done x = true /\ rs = m_rs x /\ s' = snd (mt_result (m_pipe x)).
+Proof. exact mta_model_is_run. Qed.
+Print Assumptions c14_mt_app_model_is_run.
+
+Theorem c14_mt_app_model_total :
+  forall P maxbuf frames, 0 < P -> 0 < maxbuf -> forall pol ops s,
+    mta_model P maxbuf frames pol ops s <> None.
+Proof. exact mta_model_total. Qed.
+Print Assumptions c14_mt_app_model_total.
+
+(* ----------------------------------------------------------------------------------------- *)
 (* format writers over a BGZF writer (BAM, BCF, CSI, tabix, bgzipped SAM / VCF at the level of
    their byte stream): [ops] = for each explicit operation of the format layer, the calls it
    makes on the BGZF writer, joined by `?` -- ANY calls, ANY grouping *)
@@ -244,6 +350,134 @@ Theorem c14_small_file_error_at_finish :
       (no_fail (sscript s) -> r = Ok).
 Proof. exact small_file_error_at_finish. Qed.
 Print Assumptions c14_small_file_error_at_finish.
+
+(* ----------------------------------------------------------------------------------------- *)
+(* BAI and GZI index writers, FULL statement.  NV.Sinks.IndexCalls gives write_index as the actual
+   sequence of write_all calls (one per little-endian integer, one for the magic number; lengths
+   and bin ids pass through u32::try_from first), the BYTES being C17's layout models
+   NV.Index.Layout.w_bai / w_gzi (read-only), whose readers C17 proved to round-trip. *)
+
+(* the call boundaries add up to C17's byte layout, and a well-formed index has no encoder error *)
+Theorem c14_bai_calls_are_layout :
+  forall i, bai_ok i -> ix_out (c_bai i) = w_bai i /\ ix_clean (c_bai i) = true.
+Proof. exact c_bai_out. Qed.
+Print Assumptions c14_bai_calls_are_layout.
+
+(* one write_index call on any sink: Ok => the destination holds exactly the file, which the BAI
+   reader decodes to the index written; a consumed Fail e => the call returns Err e; short writes /
+   Interrupted only => Ok (hence byte-identical); always a prefix of the file *)
+Theorem c14_bai_write_index :
+  forall i, bai_ok i -> forall s r s',
+    bai_write_index i s = (r, s') ->
+    (r = Ok -> sbytes s' = sbytes s ++ w_bai i /\ (sbytes s = [] -> read_bai (sbytes s') = Some i)) /\
+    (forall c e, sscript s = c ++ sscript s' -> In (Fail e) c -> e <> e_interrupted -> r = Err e) /\
+    (no_fail (sscript s) -> r = Ok) /\
+    (exists p, sbytes s' = sbytes s ++ p /\ prefix p (w_bai i)).
+Proof. exact bai_write_index_property. Qed.
+Print Assumptions c14_bai_write_index.
+
+(* for EVERY index k of the destination's write calls failing: the call returns that error after
+   exactly k + 1 inner calls and the destination holds exactly the first k buffers *)
+Theorem c14_bai_fail_at_every_call :
+  forall i, bai_ok i -> forall k, k < length (c_bai i) ->
+  forall e rest, e <> e_interrupted ->
+  exists p, bai_write_index i (mkSink [] (repeat Full k ++ Fail e :: rest) 0) = (Err e, mkSink p rest (k + 1))
+            /\ p = concat (firstn k (map ic_out (c_bai i))) /\ prefix p (w_bai i).
+Proof. exact bai_fail_at_call. Qed.
+Print Assumptions c14_bai_fail_at_every_call.
+
+Theorem c14_gzi_write_index :
+  forall idx, (N.of_nat (length idx) < 18446744073709551616)%N -> Forall chunk_ok idx -> forall s r s',
+    gzi_write_index idx s = (r, s') ->
+    (r = Ok -> sbytes s' = sbytes s ++ w_gzi idx /\ (sbytes s = [] -> read_gzi (sbytes s') = Some idx)) /\
+    (forall c e, sscript s = c ++ sscript s' -> In (Fail e) c -> e <> e_interrupted -> r = Err e) /\
+    (no_fail (sscript s) -> r = Ok) /\
+    (exists p, sbytes s' = sbytes s ++ p /\ prefix p (w_gzi idx)).
+Proof. exact gzi_write_index_property. Qed.
+Print Assumptions c14_gzi_write_index.
+
+Theorem c14_gzi_fail_at_every_call :
+  forall idx k, k < length (c_gzi idx) ->
+  forall e rest, e <> e_interrupted ->
+  exists p, gzi_write_index idx (mkSink [] (repeat Full k ++ Fail e :: rest) 0) = (Err e, mkSink p rest (k + 1))
+            /\ p = concat (firstn k (map ic_out (c_gzi idx))) /\ prefix p (w_gzi idx).
+Proof. exact gzi_fail_at_call. Qed.
+Print Assumptions c14_gzi_fail_at_every_call.
+
+(* an error of the encoder itself (a bin id >= 2^32: InvalidInput) is returned by the same call; the
+   destination keeps what the steps before it wrote *)
+Theorem c14_index_encoder_error_reported :
+  forall pre e post s, ix_clean pre = true -> no_fail (sscript s) ->
+    exists s', ix_run (pre ++ IE e :: post) s = (Err e, s') /\ sbytes s' = sbytes s ++ ix_out pre.
+Proof. exact ix_encoder_error. Qed.
+Print Assumptions c14_index_encoder_error_reported.
+
+(* a one-reference BAI index: 13 calls; the sink fails at the 6th *)
+Example c14_example_bai :
+  let i := mkbai [mkbref [(4681, [(10, 20)])]%N None [7]%N] (Some 3%N) in
+  length (c_bai i) = 10 /\
+  fst (bai_write_index i (mkSink [] (repeat Full 5 ++ [Fail 5%N]) 0)) = Err 5%N /\
+  length (sbytes (snd (bai_write_index i (mkSink [] (repeat Full 5 ++ [Fail 5%N]) 0)))) = 4 + 4 + 4 + 4 + 4 /\
+  fst (bai_write_index (mkbai [mkbref [(4294967296, [])]%N None []] None) ideal_sink) = Err e_invalid_input.
+Proof. vm_compute. repeat split; reflexivity. Qed.
+
+(* ----------------------------------------------------------------------------------------- *)
+(* async writers over a faulty tokio AsyncWrite destination (NV.Sinks.AsyncSink): every poll of
+   poll_write consumes one event -- Pending, accept part of the buffer, or an error.  tokio's
+   write_all returns EVERY error of a poll (ErrorKind::Interrupted included). *)
+
+(* one write_all(..).await: Ok => exactly the buffer was appended; a consumed error => it is the
+   result; no error event => Ok whatever the Pending / partial-write pattern; always a prefix *)
+Theorem c14_async_write_all :
+  forall buf s r s',
+    as_write_all buf s = (r, s') ->
+    (r = Ok -> as_bytes s' = as_bytes s ++ buf) /\
+    (forall c e, as_script s = c ++ as_script s' -> In (AErr e) c -> r = Err e) /\
+    (a_noerr (as_script s) -> r = Ok) /\
+    (exists p, as_bytes s' = as_bytes s ++ p /\ prefix p buf).
+Proof. exact as_write_all_property. Qed.
+Print Assumptions c14_async_write_all.
+
+(* a life of operations, each a `?`-chain of write_all(..).await calls, the caller stopping at the
+   first Err: all Ok => complete; an injected error is returned by the awaiting operation -- all
+   before it returned Ok, nothing is called after it --; partial writes / Pending only =>
+   byte-identical; the destination always holds a prefix *)
+Theorem c14_async_chain_property :
+  forall ops s rs s',
+    as_run ops s = (rs, s') ->
+    (Forall (fun r => r = Ok) rs -> length rs = length ops /\ as_bytes s' = as_bytes s ++ as_out ops) /\
+    (forall c e, as_script s = c ++ as_script s' -> In (AErr e) c ->
+       exists j, j < length ops /\ rs = repeat Ok j ++ [Err e]) /\
+    (a_noerr (as_script s) -> rs = repeat Ok (length ops) /\ as_bytes s' = as_bytes s ++ as_out ops) /\
+    (exists p, as_bytes s' = as_bytes s ++ p /\ prefix p (as_out ops)).
+Proof. exact as_run_property. Qed.
+Print Assumptions c14_async_chain_property.
+
+(* the async FASTQ writer (its write_record is the chain fq_calls): the complete file is the
+   concatenation of the records' text *)
+Theorem c14_async_fastq_out :
+  forall recs, as_out (map fq_calls recs) = concat (map fq_text recs).
+Proof. exact afq_out. Qed.
+Print Assumptions c14_async_fastq_out.
+
+(* on error-free scripts this model agrees with C16's NV.Async.WriteAll (read-only) *)
+Theorem c14_async_agrees_with_c16 :
+  forall bufs s, a_noerr (as_script s) ->
+  exists s' p lg,
+    as_chain bufs s = (Ok, s') /\
+    NV.Async.WriteAll.write_calls
+      (NV.Async.WriteAll.mkASink (as_bytes s) (map a_to_w (as_script s)) []) bufs
+    = (NV.Async.WriteAll.WOk, NV.Async.WriteAll.mkASink (as_bytes s') p lg).
+Proof. exact as_chain_agrees_with_c16. Qed.
+Print Assumptions c14_async_agrees_with_c16.
+
+(* a FASTQ record through Pending and 1-byte polls, then an Interrupted error in the 2nd record *)
+Example c14_example_async :
+  let r := mkFq [114; 48]%N [] [65; 67]%N [33; 33]%N in
+  fst (afq_run [r; r] (mkAs [] ([APending; AAccept 1] ++ repeat (AAccept 9) 8 ++ [AAccept 1; AErr 0%N]) 0))
+    = [Ok; Err 0%N]
+  /\ as_bytes (snd (afq_run [r] (mkAs [] [APending; AAccept 1; APending] 0))) = fq_text r.
+Proof. vm_compute. split; reflexivity. Qed.
 
 (* ----------------------------------------------------------------------------------------- *)
 (* CRAM writer at the level of its sink usage (each operation = a `?`-chain of write_all calls of
@@ -317,6 +551,21 @@ Example c14_example_mt :
      = Err 4%N
   /\ mt_model 2 100 [wit_frame; wit_frame] false [MWriteAll 3; MFlush; MWriteAll 1] ideal_sink
      = Some (Ok, mkSink (wit_frame ++ wit_frame ++ BGZF_EOF) [] 29).
+Proof. vm_compute. repeat split; reflexivity. Qed.
+
+(* attribution depends on the schedule: 2 blocks, the sink fails in the first frame.  Gate closed
+   until finish(): finish() reports; a synchronisation point after the first op: the flush that
+   makes the next send() reports *)
+Example c14_example_mt_app :
+  option_map fst (mta_model 2 100 [wit_frame; wit_frame] (mta_pol [false; false; false])
+                    [MWriteAll 3; MFlush; MWriteAll 1] (mkSink [] [Full; Fail 4%N] 0))
+    = Some [Ok; Ok; Ok; Err 4%N]
+  /\ option_map fst (mta_model 2 100 [wit_frame; wit_frame] (mta_pol [false; true; false])
+                    [MWriteAll 3; MFlush; MWriteAll 1] (mkSink [] [Full; Fail 4%N] 0))
+    = Some [Ok; Ok; Ok; Err 4%N]
+  /\ option_map fst (mta_model 2 100 [wit_frame; wit_frame] (mta_pol [false; true; false])
+                    [MWriteAll 3; MFlush; MWriteAll 1; MFlush] (mkSink [] [Full; Fail 4%N] 0))
+    = Some [Ok; Ok; Ok; Err 4%N].
 Proof. vm_compute. repeat split; reflexivity. Qed.
 
 (* a CSI-like life: 3 small writes, try_finish; the sink fails in the 9th call made by try_finish *)
